@@ -215,7 +215,7 @@ Proof.
   destruct (all_b is_ident_char (c :: p)); cbn [negb]; [|discriminate].
   destruct (all_b is_ascii_digit (c :: p)) eqn:Hd.
   - destruct (numeric_like (c :: p)) eqn:Hn; [|discriminate].
-    destruct (parse_u64 (c :: p)) as [n|] eqn:Hp; [|discriminate]. intros H. inversion H; subst. cbn [ident_print].
+    destruct (parse_u64 (c :: p)) as [n|] eqn:Hp; intros H; inversion H; subst; [|reflexivity]. cbn [ident_print].
     apply print_parse_canonical; [apply numeric_like_canonical; [discriminate|exact Hn]|apply parse_u64_dec; assumption].
   - intros H. inversion H. reflexivity.
 Qed.
